@@ -147,6 +147,7 @@ class ShapeLifter(Lifter):
         self.terminals = []     # (call node, [arg values]) of terminal calls
         self.explore_guards = False
         self.generic_compare = False   # decide `a == b` on symbolic sizes
+        self.individual_labels = set()  # axis labels that index individuals
 
     # -- helpers ---------------------------------------------------------------
     def note(self, kind, node, msg, **kw):
@@ -355,6 +356,16 @@ class ShapeLifter(Lifter):
                 pos += 1
                 continue
             if isinstance(iv, (sp.Expr, int)) or isinstance(e, ast.UnaryOp):
+                lab = {l for l, s_ in axes[pos].nest}
+                if isinstance(e, ast.Constant) and (
+                        lab & self.individual_labels) and not eq(
+                        axes[pos].size, 1):
+                    self.note('shape', n,
+                              '`%s` takes entry %s of the individual axis '
+                              '(%s) of a per-individual array: the values of '
+                              'that one individual are used for all '
+                              'individuals' % (U(n)[:50], U(e),
+                                               nest_str(axes[pos].nest)))
                 pos += 1          # integer index removes the axis
                 continue
             if isinstance(iv, Opaque) and iv.what == 'bool':
